@@ -545,6 +545,13 @@ func checkDoneOnceUnder(c *Check, p *Prog, rule, key string, d *wfDesc, assume f
 			escapes = append(escapes, e.String(p))
 		}
 	})
+	// leaving the job loop while the channel is still open: the worker is gone, and once all workers are gone the
+	// dispatcher's next send blocks forever (a loop exit is not a return event of the body)
+	for _, x := range l.Exits {
+		if x.Guard != nil && !S.Implies(x.Guard, S.Not(okT)) {
+			escapes = append(escapes, fmt.Sprintf("the job loop is left on %v although a job was received (the worker stops serving the open channel)", x.Guard))
+		}
+	}
 	any := S.False
 	excl := true
 	for i, a := range dones {
